@@ -41,6 +41,7 @@ class Interp(object):
         self.log_names = ('LOG', 'log', 'logging')
         self.while_unroll = WHILE_UNROLL
         self.merge_loops = False
+        self.merge_ignore_actions = False
         self.unique_opaque_calls = False
         self.max_depth = MAX_DEPTH
         self.loop_hook = None
@@ -486,7 +487,8 @@ class Interp(object):
             else:
                 raise AnalysisError('break/continue escaped %s' % f.qualname)
         if self.merge_call_prefixes and f.qualname.startswith(self.merge_call_prefixes):
-            out = merge_outcomes([o for o in out if o[0] != 'raise']) + [o for o in out if o[0] == 'raise']
+            out = merge_outcomes([o for o in out if o[0] != 'raise'], None, self.merge_ignore_actions) + \
+                [o for o in out if o[0] == 'raise']
         return out
 
     def eval_default(self, d, f):
@@ -750,7 +752,7 @@ class Interp(object):
                         continue
                     body = self.exec_block(stmt.body, s1)
                     if self.merge_loops:
-                        body = merge_outcomes(body, self.base_counter)
+                        body = merge_outcomes(body, None, self.merge_ignore_actions)
                     for k, v, s2 in body:
                         if k in ('next', 'continue'):
                             loop(s2, n + 1)
@@ -760,7 +762,7 @@ class Interp(object):
                             out.append((k, v, s2))
         loop(st, 0)
         if self.merge_loops:
-            out = merge_outcomes(out, self.base_counter)
+            out = merge_outcomes(out, None, self.merge_ignore_actions)
         return out
 
     def _cursor_vals(self, stmt, st):
@@ -817,7 +819,7 @@ class Interp(object):
                             continue
                         body = self.exec_block(stmt.body, s2)
                         if self.merge_loops:
-                            body = merge_outcomes(body, self.base_counter)
+                            body = merge_outcomes(body, None, self.merge_ignore_actions)
                         for k3, v3, s3 in body:
                             if k3 == 'continue':
                                 nxt.append(('next', None, s3))
@@ -834,7 +836,7 @@ class Interp(object):
                 else:
                     out.append((k, v, s1))
             if self.merge_loops:
-                out = merge_outcomes(out, self.base_counter)
+                out = merge_outcomes(out, None, self.merge_ignore_actions)
             return out
         return self._vals(self.ev(stmt.iter, st), do)
 
@@ -951,7 +953,7 @@ def _fpv(v):
     return ('p', repr(v))
 
 
-def fingerprint(kind, val, st, base_counter=None):
+def fingerprint(kind, val, st, base_counter=None, ignore_actions=False):
     """Observable part of an outcome: control, actions, fields of objects that existed
     before the event started (FSM, peering, protocol, timers, old containers).  Locals and
     objects allocated during the event are joined pointwise when outcomes are merged."""
@@ -967,7 +969,7 @@ def fingerprint(kind, val, st, base_counter=None):
         else:
             heap.append((oid, 'dict', h.open, tuple(sorted((repr(k), _fpv(v)) for k, v in h.items.items()))))
     frames = tuple(getattr(fr.get('$func'), 'qualname', None) for fr in st.frames)
-    acts = tuple(a.short() for a in st.actions)
+    acts = () if ignore_actions else tuple(a.short() for a in st.actions)
     exc = None
     if kind == 'raise' and isinstance(val, Obj) and val.oid in st.heap:
         exc = tuple(sorted((k, _fpv(v)) for k, v in st.heap[val.oid].fields.items()
@@ -989,13 +991,13 @@ def _join(name, a, b, ma=None, mb=None):
     return Opaque('join(%s)' % name, kind)
 
 
-def merge_outcomes(outs, base_counter=None):
+def merge_outcomes(outs, base_counter=None, ignore_actions=False):
     """Join outcomes that agree on everything observable; intervals are joined (hull),
     disagreeing atoms dropped, locals / young objects joined pointwise."""
     groups = {}
     order = []
     for kind, val, st in outs:
-        fp = fingerprint(kind, val, st)
+        fp = fingerprint(kind, val, st, None, ignore_actions)
         if fp not in groups:
             groups[fp] = [kind, val, st, 1]
             order.append(fp)
